@@ -89,6 +89,8 @@ Proof.
   intros Hf name args host u h Hr. unfold roundtrip_expect in Hr.
   destruct (lookup_rule name (RNode MAny None (app_rules a))) as [[m n h0|? ? ?]|] eqn:El; try discriminate.
   destruct m as [| | |p]; try discriminate.
+  destruct (plain_segs (pm_text p)) as [segs0|] eqn:Epl; [|discriminate].
+  destruct (pm_whole p); [|discriminate]. cbn [andb] in Hr.
   destruct (forallb is_bytes args); [|discriminate].
   destruct (spec_url (rx_pieces (pm_rx p)) args) as [u0|] eqn:Eu; [|discriminate].
   assert (u0 = u).
@@ -106,7 +108,7 @@ Qed.
 Theorem plain_pattern_faithful segs pm :
   Forall seg_ok segs -> compile_path (pat_text segs) = Some pm -> pm_faithful pm.
 Proof.
-  intros Hok Hc. destruct (compile_plain_pattern segs Hok) as (pm' & Hc' & Hp & Hrev).
+  intros Hok Hc. destruct (compile_plain_pattern segs Hok) as (pm' & Hc' & Hp & _ & Hrev).
   rewrite Hc in Hc'. inversion Hc'; subst. intros args u Hu. apply Hrev. rewrite <- Hp. exact Hu.
 Qed.
 
@@ -115,6 +117,237 @@ Theorem check_case_reverse_faithful hs hosts dh dflt name args host :
   let i := (hs, hosts, dh, dflt, OpReverse name args host) in check_case i (run_case i) = true.
 Proof.
   intros H. apply check_case_reverse. intros a Ha. apply reverse_agrees_of_faithful. apply H. exact Ha.
+Qed.
+
+(* ------------------------------------------------------------------ *)
+(* the recogniser of plainly written patterns is sound                   *)
+(* ------------------------------------------------------------------ *)
+Lemma items_of_map ts its : items_of ts = Some its -> ts = map TItem its.
+Proof.
+  unfold items_of. revert its. induction ts as [|t ts IH]; intros its H; simpl in H.
+  - inversion H. reflexivity.
+  - destruct t as [i| | |]; try discriminate.
+    destruct (map_opt _ ts) as [l|]; [|discriminate]. inversion H; subst. simpl. f_equal. apply IH. reflexivity.
+Qed.
+
+Definition pend_text (m : pmode) : str :=
+  match m with PTop => [] | PEsc => [92] | PBody b => 40 :: rev b end.
+Definition mode_ok (m : pmode) : Prop :=
+  match m with PBody b => ~ In 40 b /\ ~ In 41 b | _ => True end.
+
+Lemma pat_text_app a b : pat_text (a ++ b) = pat_text a ++ pat_text b.
+Proof. unfold pat_text. apply flat_map_app. Qed.
+
+Lemma plain_scan_sound : forall s mode acc segs,
+  plain_scan s mode acc = Some segs -> Forall seg_ok acc -> mode_ok mode ->
+  Forall seg_ok segs /\ pat_text segs = pat_text (rev acc) ++ pend_text mode ++ s.
+Proof.
+  induction s as [|c s IH]; intros mode acc segs H Hacc Hm.
+  - destruct mode; try discriminate. simpl in H. inversion H; subst. split.
+    + apply Forall_rev. exact Hacc.
+    + simpl. rewrite app_nil_r. reflexivity.
+  - destruct mode as [| |b]; cbn [plain_scan] in H.
+    + destruct (c =? 92) eqn:E92.
+      { apply N.eqb_eq in E92. subst. destruct (IH _ _ _ H Hacc I) as [H1 H2]. split; [exact H1|exact H2]. }
+      destruct (c =? 40) eqn:E40.
+      { apply N.eqb_eq in E40. subst. destruct (IH _ _ _ H Hacc) as [H1 H2]; [split; intros []|].
+        split; [exact H1|exact H2]. }
+      destruct (is_special c) eqn:Es; [discriminate|].
+      destruct (IH _ _ _ H) as [H1 H2]; [constructor; [exact Es|exact Hacc]|exact I|].
+      split; [exact H1|]. rewrite H2. simpl. rewrite pat_text_app. simpl. rewrite <- app_assoc. reflexivity.
+    + destruct (is_alnum c || (c =? 40) || (c =? 41)) eqn:E; [discriminate|].
+      apply orb_false_iff in E as [E E41]. apply orb_false_iff in E as [Ea E40].
+      apply N.eqb_neq in E40, E41.
+      destruct (IH _ _ _ H) as [H1 H2]; [constructor; [simpl; auto|exact Hacc]|exact I|].
+      split; [exact H1|]. rewrite H2. simpl. rewrite pat_text_app. simpl. rewrite <- app_assoc. reflexivity.
+    + destruct Hm as [Hb40 Hb41]. destruct (c =? 41) eqn:E41.
+      * apply N.eqb_eq in E41. subst.
+        destruct (lexf (rev b)) as [ts|] eqn:El; [|discriminate].
+        destruct (items_of ts) as [its|] eqn:Ei; [|discriminate].
+        apply items_of_map in Ei. subst ts.
+        destruct (IH _ _ _ H) as [H1 H2]; [constructor; [|exact Hacc]|exact I|].
+        { simpl. rewrite <- !in_rev. auto. }
+        split; [exact H1|]. rewrite H2. simpl. rewrite pat_text_app. simpl.
+        rewrite app_nil_r. repeat rewrite <- app_assoc. simpl. repeat rewrite <- app_assoc. reflexivity.
+      * destruct (c =? 40) eqn:E40; [discriminate|]. apply N.eqb_neq in E40, E41.
+        destruct (IH _ _ _ H Hacc) as [H1 H2].
+        { split; intros [Hc|Hc]; auto. }
+        split; [exact H1|]. rewrite H2. simpl. rewrite <- !app_assoc. reflexivity.
+Qed.
+
+Theorem plain_segs_sound t segs :
+  plain_segs t = Some segs -> Forall seg_ok segs /\ pat_text segs = t.
+Proof.
+  intros H. destruct (plain_scan_sound t PTop [] segs H (Forall_nil _) I) as [H1 H2].
+  split; [exact H1|exact H2].
+Qed.
+
+(* ------------------------------------------------------------------ *)
+(* compiled applications remember where their path matchers came from     *)
+(* ------------------------------------------------------------------ *)
+Definition wf_m (m : matcher) : Prop :=
+  match m with MPath p => pm_whole p = true -> compile_path (pm_text p) = Some p | _ => True end.
+Definition rules_wf (l : list rule) : Prop :=
+  forall x, In x (flat_map all_rules l) -> wf_m (rule_m x).
+
+Lemma rules_wf_nil : rules_wf [].
+Proof. intros x []. Qed.
+Lemma rules_wf_app a b : rules_wf a -> rules_wf b -> rules_wf (a ++ b).
+Proof. intros Ha Hb x Hx. rewrite flat_map_app in Hx. apply in_app_or in Hx as [Hx|Hx]; auto. Qed.
+Lemma rules_wf_cons r l : rules_wf [r] -> rules_wf l -> rules_wf (r :: l).
+Proof. intros Hr Hl. apply (rules_wf_app [r] l Hr Hl). Qed.
+Lemma rules_wf_node m n sub : wf_m m -> rules_wf sub -> rules_wf [RNode m n sub].
+Proof.
+  intros Hm Hs x Hx. simpl in Hx. rewrite app_nil_r in Hx. change (In x (all_rules (RNode m n sub))) in Hx.
+  rewrite all_rules_node in Hx. destruct Hx as [<-|Hx]; [exact Hm|apply Hs; exact Hx].
+Qed.
+Lemma rules_wf_leaf m n h : wf_m m -> rules_wf [RLeaf m n h].
+Proof. intros Hm x [<-|[]]. exact Hm. Qed.
+
+Lemma compile_path_text pat p : compile_path pat = Some p -> pm_text p = pat.
+Proof. unfold compile_path. destruct (rx_parse _); [|discriminate]. intros H. inversion H. reflexivity. Qed.
+
+Lemma compile_matcher_wf k pat m : compile_matcher k pat = Some m -> wf_m m.
+Proof.
+  destruct k; simpl.
+  - destruct (compile_path pat) as [p|] eqn:E; [|discriminate]. intros H. inversion H; subst. simpl.
+    intros _. rewrite (compile_path_text _ _ E). exact E.
+  - destruct (compile_host pat); [|discriminate]. intros H. inversion H. exact I.
+  - intros H. inversion H. exact I.
+  - unfold compile_path_re. destruct (rx_parse pat); [|discriminate]. intros H. inversion H; subst. simpl. discriminate.
+Qed.
+
+Section RRuleInd.
+  Variable P : rrule -> Prop.
+  Hypothesis Hleaf : forall k pat n h, P (RRLeaf k pat n h).
+  Hypothesis Hnode : forall k pat n sub, Forall P sub -> P (RRNode k pat n sub).
+  Fixpoint rrule_ind2 (r : rrule) : P r :=
+    match r with
+    | RRLeaf k pat n h => Hleaf k pat n h
+    | RRNode k pat n sub =>
+        Hnode k pat n sub
+          ((fix go (l : list rrule) : Forall P l :=
+              match l with
+              | [] => Forall_nil _
+              | x :: l' => Forall_cons _ (rrule_ind2 x) (go l')
+              end) sub)
+    end.
+End RRuleInd.
+
+Lemma compile_rule_node k pat n sub :
+  compile_rule (RRNode k pat n sub) =
+  match compile_matcher k pat, map_opt compile_rule sub with
+  | Some m, Some rs => Some (RNode m n rs)
+  | _, _ => None
+  end.
+Proof.
+  simpl. destruct (compile_matcher k pat); [|reflexivity].
+  assert (E : (fix go (l : list rrule) : option (list rule) :=
+                 match l with
+                 | [] => Some []
+                 | x :: l' => match compile_rule x, go l' with
+                              | Some y, Some ys => Some (y :: ys)
+                              | _, _ => None
+                              end
+                 end) sub = map_opt compile_rule sub).
+  { induction sub as [|x l IH]; [reflexivity|]. simpl. rewrite IH. reflexivity. }
+  rewrite E. reflexivity.
+Qed.
+
+Lemma map_opt_wf (l : list rrule) : forall rs,
+  Forall (fun rr => forall r, compile_rule rr = Some r -> rules_wf [r]) l ->
+  map_opt compile_rule l = Some rs -> rules_wf rs.
+Proof.
+  induction l as [|x l IH]; intros rs Hall H; simpl in H.
+  - inversion H. apply rules_wf_nil.
+  - inversion Hall as [|? ? Hx Hl]; subst.
+    destruct (compile_rule x) as [y|] eqn:Ex; [|discriminate].
+    destruct (map_opt compile_rule l) as [ys|] eqn:El; [|discriminate]. inversion H; subst.
+    apply rules_wf_cons; [apply Hx; reflexivity|apply IH; [exact Hl|reflexivity]].
+Qed.
+
+Lemma compile_rule_wf : forall rr r, compile_rule rr = Some r -> rules_wf [r].
+Proof.
+  induction rr as [k pat n h|k pat n sub IH] using rrule_ind2; intros r H.
+  - simpl in H. destruct (compile_matcher k pat) as [m|] eqn:E; [|discriminate]. inversion H; subst.
+    apply rules_wf_leaf. eapply compile_matcher_wf. exact E.
+  - rewrite compile_rule_node in H. destruct (compile_matcher k pat) as [m|] eqn:E; [|discriminate].
+    destruct (map_opt compile_rule sub) as [rs|] eqn:Es; [|discriminate]. inversion H; subst.
+    apply rules_wf_node; [eapply compile_matcher_wf; exact E|]. eapply map_opt_wf; eassumption.
+Qed.
+
+Lemma compile_rules_wf l rs : compile_rules l = Some rs -> rules_wf rs.
+Proof.
+  unfold compile_rules. apply map_opt_wf. apply Forall_forall. intros rr _. apply compile_rule_wf.
+Qed.
+
+Lemma compile_hosts_wf l ho : compile_hosts l = Some ho -> Forall (fun hr => rules_wf (snd hr)) ho.
+Proof.
+  unfold compile_hosts. revert ho. induction l as [|x l IH]; intros ho H; simpl in H.
+  - inversion H. constructor.
+  - destruct (compile_host (fst x)) as [r|]; [|discriminate].
+    destruct (compile_rules (snd x)) as [rs|] eqn:Er; [|discriminate].
+    destruct (map_opt _ l) as [ys|] eqn:El; [|discriminate]. inversion H; subst.
+    constructor; [simpl; eapply compile_rules_wf; exact Er|apply IH; reflexivity].
+Qed.
+
+Lemma host_nodes_wf (f : regex -> matcher) ho :
+  (forall r, wf_m (f r)) -> Forall (fun hr : regex * list rule => rules_wf (snd hr)) ho ->
+  rules_wf (map (fun hr => RNode (f (fst hr)) None (snd hr)) ho).
+Proof.
+  intros Hf. induction 1 as [|hr ho Hhr _ IH]; [apply rules_wf_nil|].
+  simpl. apply rules_wf_cons; [apply rules_wf_node; [apply Hf|exact Hhr]|exact IH].
+Qed.
+
+Definition app_wf (a : app) : Prop :=
+  forall p, In p (app_paths a) -> pm_whole p = true -> compile_path (pm_text p) = Some p.
+
+Theorem compile_app_wf hs hosts dh dflt a : compile_app hs hosts dh dflt = Some a -> app_wf a.
+Proof.
+  unfold compile_app. destruct (compile_rules hs) as [h|] eqn:Eh; [|discriminate].
+  destruct (compile_hosts hosts) as [ho|] eqn:Eo; [|discriminate]. intros H. inversion H; subst. clear H.
+  apply compile_rules_wf in Eh. apply compile_hosts_wf in Eo.
+  assert (Hroot : rules_wf [RNode MAny None (app_rules (mkApp h ho dh dflt))]).
+  { apply rules_wf_node; [exact I|]. unfold app_rules. apply rules_wf_app.
+    - apply (host_nodes_wf MHost); [intros r; exact I|exact Eo].
+    - apply rules_wf_node; [exact I|]. unfold wildcard_rules. simpl. apply rules_wf_app; [exact Eh|].
+      destruct dh as [d|]; [|apply rules_wf_nil].
+      apply (host_nodes_wf (fun r => MDefHost r d)); [intros r; exact I|exact Eo]. }
+  intros p Hp. unfold app_paths in Hp. apply in_flat_map in Hp as (x & Hx & Hp).
+  specialize (Hroot x). simpl in Hroot. rewrite app_nil_r in Hroot. specialize (Hroot Hx).
+  destruct (rule_m x) as [| | |q]; simpl in Hp; try contradiction. destruct Hp as [<-|[]]. exact Hroot.
+Qed.
+
+(* inside the scope the looked-up pattern is plainly written, hence faithful *)
+Theorem reverse_agrees_wf a : app_wf a -> reverse_agrees a.
+Proof.
+  intros Hwf name args host u h Hr. pose proof Hr as Hr0. unfold roundtrip_expect in Hr.
+  destruct (lookup_rule name (RNode MAny None (app_rules a))) as [[m n h0|? ? ?]|] eqn:El; try discriminate.
+  destruct m as [| | |p]; try discriminate.
+  destruct (plain_segs (pm_text p)) as [segs|] eqn:Epl; [|discriminate].
+  destruct (pm_whole p) eqn:Ew; [|discriminate]. cbn [andb] in Hr.
+  destruct (forallb is_bytes args); [|discriminate].
+  destruct (spec_url (rx_pieces (pm_rx p)) args) as [u0|] eqn:Eu; [|discriminate].
+  assert (u0 = u).
+  { destruct (negb _); [discriminate|]. destruct (find _ _) as [[[? m'] ?]|]; [|discriminate].
+    destruct m'; try discriminate. destruct (all_parses _ _) as [|? [|]]; try discriminate.
+    destruct (_ && _); [|discriminate]. inversion Hr. reflexivity. }
+  subst u0. unfold app_reverse.
+  pose proof (rule_reverse_lookup (RNode MAny None (app_rules a)) name args) as Hl.
+  rewrite El in Hl. simpl rule_m in Hl. rewrite Hl. f_equal.
+  assert (Hin : In p (app_paths a)).
+  { unfold app_paths. apply in_flat_map. exists (RLeaf (MPath p) n h0). split; [|left; reflexivity].
+    apply lookup_in with (name := name). exact El. }
+  apply plain_segs_sound in Epl as [Hok Htext].
+  apply (plain_pattern_faithful segs p Hok); [|exact Eu]. rewrite Htext. apply Hwf; [exact Hin|exact Ew].
+Qed.
+
+(* the model satisfies the checker on EVERY case *)
+Theorem check_case_model : forall i, check_case i (run_case i) = true.
+Proof.
+  intros [[[[hs hosts] dh] dflt] [host uri xreal|name args host]].
+  - apply check_case_route.
+  - apply check_case_reverse. intros a Ha. apply reverse_agrees_wf. eapply compile_app_wf. exact Ha.
 Qed.
 
 (* ---------- examples: the hypotheses are satisfiable, old defect witnesses ---------- *)
